@@ -64,7 +64,7 @@ EXPECT = {
     "_escape_regex_range_chars": "ed777546506cf86a",
     "_collapse_string_to_ranges": "971c5a9187c3dc0f",
     "_GroupConsecutive.__call__": "8acb794b102655da",
-    "make_compressed_re": "eb5fdc1e418bc86f",
+    "make_compressed_re": "411d23a67802c34f",
 }
 
 STRICT_CLAUSE = "self.maxSpecified and loc < instrlen and (instring[loc] in body_chars)"
